@@ -74,6 +74,9 @@ pub enum Who {
     Owner,
     Keeper,
     Stranger,
+    /// The receiver recorded in the action header when it is not the owner (orders with a foreign receiver);
+    /// otherwise the stranger. Never the owner, never a keeper.
+    Receiver,
 }
 
 #[derive(Clone, Debug)]
@@ -655,10 +658,11 @@ impl Sim {
             }
             8 if n_act > 0 => {
                 let action = self.pick_action(false);
-                let who = match self.rng.below(10) {
+                let who = match self.rng.below(11) {
                     0..=5 => Who::Owner,
                     6..=8 => Who::Keeper,
-                    _ => Who::Stranger,
+                    9 => Who::Stranger,
+                    _ => Who::Receiver,
                 };
                 Op::Close { action, who }
             }
@@ -884,6 +888,10 @@ impl Sim {
             Who::Keeper if a.kind == ActKind::GlvShift => self.keeper2,
             Who::Keeper => self.w.keeper,
             Who::Stranger => self.stranger,
+            Who::Receiver => match a.kind {
+                ActKind::Order => order_receiver(&self.w.svm, &a.addr).filter(|r| *r != a.owner && *r != self.w.keeper).unwrap_or(self.stranger),
+                _ => self.stranger,
+            },
         }
     }
 
